@@ -270,7 +270,7 @@ def plainSize : Nat → Nat
 /-! ### kinds of values, and "equal content" (used by the statement of C09 on the whole value universe) -/
 
 /-- the kinds inside which `cmp` is claimed to be an order: both operands Int, both Float (no NaN), both String, both
-    Type, both the same plain struct type, both sequences (Array, List or Tuple — the container kinds may differ) with
+    Type, both the same plain struct type of non-zero size (two objects of a size-0 type raise TypeError), both sequences (Array, List or Tuple — the container kinds may differ) with
     elements of one kind, both Trees with keys of one kind and values of one kind — and sequences with a kind PER SLOT
     (what a Tuple normally is, `tuple($I(1), $S("ab"), $F(2.0))`, and what Zip hands out): `nil` is the empty sequence,
     `cons h t` a sequence that is empty or whose first element has kind `h` and whose remaining elements form a sequence of
@@ -305,7 +305,7 @@ def hasKind : Kind → Val → Prop
   | .flt, .flt b => fIsNaN b = false
   | .str, .str bs => NulFree bs
   | .typ, .typ bs => NulFree bs
-  | .plain t, .plain t' _ => t' = t
+  | .plain t, .plain t' _ => t' = t ∧ plainSize t ≠ 0        -- `cmp` of two objects of a size-0 type raises TypeError (Cmp.c)
   | .seq e, .seq _ xs => ∀ x ∈ xs, hasKind e x
   | .tree k v, .tree kvs => ∀ p ∈ kvs, hasKind k p.1 ∧ hasKind v p.2
   | .nil, .seq _ xs => xs = []
@@ -362,16 +362,24 @@ def allSame (ts : List Nat) : Bool :=
   | [] => true
   | t :: rest => rest.all (· == t)
 
+/-- the element type a container is declared with: the C type, and for plain structs which one -/
+def Val.etype : Val → Nat
+  | .plain tid _ => 100 + tid
+  | v => v.ctype
+
 mutual
-/-- a value the harness can build: Array/List elements all of one type among Int, Float, String, Array, List, Tuple; Tuple
-    elements anything but plain structs and Type objects (the same object twice in a Tuple is known finding F13); Tree keys
-    of one type among Int, Float, String, values of one type among those and Tuple -/
+/-- a value the harness can build: Array/List elements all of one type among Int, Float, String, Array, List, Tuple and the
+    plain struct types of non-zero size (elements of one and the same struct type); Tuple elements anything (also plain
+    structs and Type objects — a Tuple holds references, and there is ONE object per Type: the same Type in two slots is the
+    same object twice, known finding F13); Tree keys of one type among Int, Float, String, values of one type among those
+    and Tuple -/
 def Val.valid : Val → Bool
   | .int _ | .str _ | .typ _ => true
   | .flt b => !fIsNaN b
   | .plain tid bs => tid < 4 && bs.length == plainSize tid
-  | .seq .tuple xs => validList xs && xs.all (fun x => x.ctype != 4 && x.ctype != 3)
-  | .seq _ xs => validList xs && allSame (xs.map Val.ctype) && (xs.all fun x => x.ctype ∈ [0, 1, 2, 5, 6, 7])
+  | .seq .tuple xs => validList xs
+  | .seq _ xs => validList xs && allSame (xs.map Val.etype) &&
+      (xs.all fun x => x.ctype ∈ [0, 1, 2, 5, 6, 7] || (x.ctype == 4 && x.etype != 100))
   | .tree kvs => validPairs kvs && allSame (kvs.map (·.1.ctype)) && allSame (kvs.map (·.2.ctype)) &&
       (kvs.all fun kv => kv.1.ctype ∈ [0, 1, 2] && kv.2.ctype ∈ [0, 1, 2, 7])
 def validList : List Val → Bool
@@ -383,10 +391,11 @@ def validPairs : List (Val × Val) → Bool
 end
 
 mutual
-/-- two values whose comparison stays inside one kind at every level (Int with Int, …, sequence with sequence of any
-    container kind, Tree with Tree) -/
+/-- two values whose comparison stays inside one kind at every level (Int with Int, …, two plain structs of one type of
+    non-zero size, sequence with sequence of any container kind, Tree with Tree) -/
 def comparable : Val → Val → Bool
   | .int _, .int _ | .flt _, .flt _ | .str _, .str _ | .typ _, .typ _ => true
+  | .plain ta _, .plain tb _ => ta == tb && plainSize ta != 0          -- the default `memcmp` arm of `cmp`; anything else raises
   | .seq _ xs, .seq _ ys => comparableList xs ys
   | .tree xs, .tree ys => comparablePairs xs ys
   | _, _ => false
@@ -623,6 +632,64 @@ def slotsNodup : List (Nat × Obj) → Bool
 def entsNodup : List (Val × Obj) → Bool
   | [] => true
   | (_, o) :: rest => o.nodup && entsNodup rest
+end
+
+/-! the territory of known finding KF-C09-tuple-dup-obj, EXACTLY: the walk along `obj` goes wrong only when Tuple_Iter_Next is
+   called with a cursor whose object also sits in an EARLIER slot of that Tuple (it then returns the slot after the first
+   occurrence).  The loop steps from slot `j` of `obj` only after `self` had an element `j` and the elements `0 … j` of both
+   compared equal; a comparison that is decided before (by a difference, or because `self` ends) never makes that call.
+   One such call is harmless: when `self` ends right after the step (`item0 is Terminal`) the loop only asks whether the
+   cursor in `obj` is Terminal too; the misplaced cursor never is (it has the current slot still ahead of it), so the answer
+   is right exactly when `obj` has further slots — `cmp(tuple(1,1), tuple(one,one,two)) = -1` is right, `cmp(tuple(1,1),
+   tuple(one,one)) = -1` is not. -/
+
+/-- is the iterator of this container kind an identity search (Tuple_Iter_Next) rather than positional? -/
+def SeqKind.byIdentity : SeqKind → Bool
+  | .tuple => true
+  | _ => false
+
+mutual
+/-- `obj.walkClean ops self`: `cmp(self, obj)` never steps FROM a slot of a Tuple inside `obj` whose object already sits in an
+    earlier slot of that Tuple — at the top, and in every comparison of parts that the loops actually perform (the pairs that
+    are reached: position by position until the first pair that does not compare equal).  Decidable; `self` is unrestricted
+    apart from what it forces the walk to do.  Whether two parts "compare equal" is taken from their contents: on the clean
+    part of the walk that IS what the loops compute (`C09_tuple_walk_content_partial`). -/
+def Obj.walkClean (ops : FloatOps UInt64) : Obj → Obj → Bool
+  | .val _, _ => true                       -- no Tuple inside holds an object twice (slots of a plain value are distinct objects)
+  | .tuple ss, a =>
+    match a.seqView with
+    | some (_, s0) => slotsClean ops true [] ss s0
+    | none => true
+  | .cont k ss, a =>
+    match a.seqView with
+    | some (_, s0) => slotsClean ops k.byIdentity [] ss s0       -- Array_Iter_Next / List_Iter_Next are positional
+    | none => true
+  | .tree es, a =>
+    match a.treeView with
+    | some e0 => entsClean ops es e0
+    | none => true
+/-- the loop of X_Cmp from the cursor pair (`cur1` in `obj`, `cur0` in `self`); `pre` = the slots of `obj` already passed
+    (`all1 = pre ++ cur1`); `tup` = `obj` is a Tuple -/
+def slotsClean (ops : FloatOps UInt64) (tup : Bool) (pre : List Slot) : List (Nat × Obj) → List Slot → Bool
+  | [], _ => true
+  | (i1, o1) :: r1, cur0 =>
+    match cur0 with
+    | [] => true                                                          -- item0 is Terminal: decided
+    | s0 :: r0 =>
+      o1.walkClean ops s0.2 &&
+      (valCmp ops s0.2.content o1.content != 0 ||                          -- decided here: no step
+        ((!tup || !hasId i1 pre ||                                         -- the step is from a first occurrence, or
+            (r0.isEmpty && !r1.isEmpty)) &&                                -- `self` ends here and `obj` does not (see below)
+          slotsClean ops tup (pre ++ [(i1, o1)]) r1 r0))
+/-- the loop of Tree_Cmp: positional on both sides; the values are compared only when the keys compare equal -/
+def entsClean (ops : FloatOps UInt64) : List (Val × Obj) → List (Val × Obj) → Bool
+  | [], _ => true
+  | (k1, o1) :: r1, e0 =>
+    match e0 with
+    | [] => true
+    | q0 :: r0 =>
+      valCmp ops q0.1 k1 != 0 ||
+        (o1.walkClean ops q0.2 && (valCmp ops q0.2.content o1.content != 0 || entsClean ops r1 r0))
 end
 
 /-- fuel the driver gives a comparison: enough whenever the loops end at all (a walk that ends visits no slot twice) -/
